@@ -318,3 +318,89 @@ for _p, _t in _TECH.items():
                                     'this workload produced (' + CONFIG[_p]['title'] + '); the evidence file lists evaluations per monitor, input classes, '
                                     'enumerated sub-spaces and what made a case non-trivial. Nothing is claimed about inputs, option cells, histories or '
                                     'schedules the workload did not drive; below the floors the run reports INCONCLUSIVE instead of held.')
+
+
+# ------------------------------------------------------------------------------------------------
+# floors re-calibrated by tools/floor_audit.py (quick tier, seeds 0-7): a floor is at most a quarter of the smallest value
+# observed over the seeds, so that random variation cannot turn a run on an unchanged tree into INCONCLUSIVE
+
+_QUICK_FLOOR_OVERRIDES = {
+    "C01": {
+        "nontrivial": 91
+    },
+    "C02": {
+        "nontrivial": 97
+    },
+    "C04": {
+        "nontrivial": 96
+    },
+    "C05": {
+        "amp_consistency:peak:last": 17,
+        "amp_consistency:trough:next": 19,
+        "nontrivial": 61
+    },
+    "C06": {
+        "nontrivial": 53
+    },
+    "C07": {
+        "nontrivial": 59,
+        "routing_nontrivial": 13,
+        "tables_with_partial_cycles": 17
+    },
+    "C09": {
+        "nontrivial": 15,
+        "pairs_compared:amp": 28,
+        "pairs_compared:cycles": 26
+    },
+    "C10": {
+        "a=2^[<-26]": 5,
+        "a=2^[>26]": 3,
+        "compared:amplitude": 43,
+        "compared:rate": 42,
+        "nontrivial": 15
+    },
+    "C11": {
+        "nontrivial": 11,
+        "worker_events": 51
+    },
+    "C12": {
+        "cell:axis=(0, 1):kwargs=2d": 2,
+        "nontrivial": 6
+    },
+    "C13": {
+        "nontrivial": 73,
+        "per_epoch_list": 25,
+        "single_option_set": 28
+    },
+    "C14": {
+        "nontrivial": 29
+    },
+    "C15": {
+        "fingerprinted:recompute_edges": 4,
+        "nontrivial": 42
+    },
+    "C16": {
+        "nontrivial": 34
+    },
+    "C17": {
+        "nontrivial": 443
+    },
+    "C18": {
+        "flatten:2d": 6
+    }
+}
+for _p, _o in _QUICK_FLOOR_OVERRIDES.items():
+    _f = CONFIG[_p].setdefault('floors', {}).setdefault('quick', {})
+    for _k, _v in _o.items():
+        if _k == 'nontrivial':
+            _f['nontrivial'] = _v
+        else:
+            _f.setdefault('classes', {})[_k] = _v
+CONFIG['C12']['floors']['quick']['classes']['cell:axis=(0, 1):kwargs=2d'] = 1
+
+# thorough tiers run at least 25x the quick workload: their floors are ten times the (calibrated) quick floors
+for _p in CONFIG:
+    _q = CONFIG[_p].get('floors', {}).get('quick', {})
+    CONFIG[_p].setdefault('floors', {})['thorough'] = {
+        'nontrivial': 10 * _q.get('nontrivial', 2) if _p not in ('C03', 'C08', 'C17', 'C19') else _q.get('nontrivial', 2),
+        'classes': dict(_q.get('classes', {}))}
